@@ -26,6 +26,7 @@ RULES = {
     'R4': 'announced headers: every failure returns before insert; GATE(validate_header => insert_next_block_header)',
     'R5': 'PANICS(REACH(maybe_process_response)) in workspace code ⊆ reviewed allow-list',
     'R6': 'the block validator insert_block relies on enforces the body checks (= C12.R1-R3)',
+    'R7': 'the header validator enforces the timestamp rules: median of up to 11 predecessors, 2h future bound at the current time (= C11.R1-R6)',
 }
 ASSUMPTIONS = ['transaction-valid blocks (the property\'s stated domain): insert_outpoints\' expect on a missing input is outside the domain']
 SS = 'ic_btc_canister::state::SyncingState'
@@ -110,6 +111,11 @@ def rest(ctx):
     from sa.engine import SubCtx
     from rules import c12
     c12.run(SubCtx(ctx, {'R1': 'R6', 'R2': 'R6', 'R3': 'R6'}))
+    # R7: "valid at the current time" includes the header's timestamp rules: the header validator that
+    # insert_block and insert_next_block_headers rely on rejects a header that is not later than the
+    # median of its (up to) 11 predecessors or more than 2h ahead of the current time (shared with C11)
+    from rules import c11
+    c11.run(SubCtx(ctx, {'R%d' % i: 'R7' for i in range(1, 7)}))
 
 
 def r2_outpoints(ctx):
